@@ -120,6 +120,11 @@ class Lemma:
         """yield (name, assumptions(list), goal)"""
         return []
 
+    def sentinels(self):
+        """yield (name, assumptions(list), goal) that must NOT be provable (deliberately weakened hypotheses): an `unsat` answer means the
+        hypotheses of the lemma are contradictory or the solver set-up is unsound - reported as a checker failure"""
+        return []
+
 
 # ---------------------------------------------------------------------------
 def make_engine(exclude_ident=None, modular_keys=None, prefer=None):
@@ -223,7 +228,7 @@ def verify_case(ident, case_index):
                 # a goal that is literally false fails iff its path is feasible; quantified facts often make that check inconclusive: decide
                 # feasibility without them (weaker hypotheses; the branch decisions of the path were made the same way)
                 qf = [a_ for a_ in ob.assumptions if not _has_quantifier(a_)]
-                r2 = solve.discharge(qf, ob.goal, ob.inputs, timeout_ms=5000, fallbacks=False)
+                r2 = solve.discharge(qf, ob.goal, ob.inputs, timeout_ms=3000, fallbacks=False)
                 if r2["status"] == "sat":
                     r = r2
                     r["backend"] += " (path feasibility decided without quantified facts)"
@@ -264,9 +269,14 @@ def verify_lemma(name):
                        status=r["status"], backend=r["backend"], time_s=round(r["time_s"], 4), model=r.get("model"), meta={},
                        tried=r.get("tried"))
             out["obligations"].append(rec)
-            st = solve.is_sat(list(assumptions))
+            # quantified hypotheses: z3 cannot build a model (it would answer `unknown` after the full time-out); the lemma's sentinels stand in
+            st = "unknown" if any(_has_quantifier(a) for a in assumptions) else solve.is_sat(list(assumptions))
             out["covers"].append(dict(name=f"{nm}: hypotheses satisfiable", func="lemma:" + name, line=0, status=st,
                                       outcome="lemma"))
+        for nm, assumptions, goal in lem.sentinels():
+            r = solve.discharge(list(assumptions), goal, {}, timeout_ms=3000, fallbacks=False)
+            out["covers"].append(dict(name=f"sentinel (must not be provable): {nm}", func="lemma:" + name, line=0,
+                                      status="unsat" if r["status"] == "unsat" else ("sat" if r["status"] == "sat" else "unknown"), outcome="lemma"))
     except Undecided as e:
         out["undecided"] = str(e)
     except Exception:
